@@ -335,6 +335,18 @@ func (x *run) afterStep(rs *repState, s *sim.Step, pre, post *obs, stepErr error
 		x.checkRead(rs, nb, b)
 	}
 
+	for _, id := range changed {
+		delete(rs.discarded, id) // its excerpt was rewritten
+	}
+	for id := range rs.discarded {
+		if _, ok := post.Bugs[id]; !ok {
+			delete(rs.discarded, id)
+		}
+	}
+	// ---- cache coherence and queries (C11, C12)
+	if rs.r.Cache != nil && x.on("C11", "C12") {
+		x.cacheChecks(rs, false)
+	}
 	// ---- C05 clocks
 	if x.on("C05") {
 		x.clockMonitor(rs, s, pre, post, changed)
@@ -952,7 +964,7 @@ func (x *run) worldRefs() string {
 }
 
 func (x *run) quiesce() {
-	if !x.on("C01", "C03", "C04", "C10") {
+	if !x.on("C01", "C03", "C04", "C10", "C11", "C12") {
 		return
 	}
 	// faults stop
@@ -1016,6 +1028,16 @@ func (x *run) quiesce() {
 }
 
 func (x *run) finalChecks() {
+	if x.on("C11", "C12") {
+		for _, rs := range x.reps {
+			if rs.alive && rs.r.Cache != nil {
+				x.w.Act(rs.r)
+				x.cacheChecks(rs, true)
+			}
+		}
+		x.parseChecks(sim.Mix(x.p.RunSeed, 12))
+		return
+	}
 	type view struct {
 		rs    *repState
 		o     *obs
@@ -1298,6 +1320,13 @@ func (e *Engine) Describe(prop string) sim.PropInfo {
 	case "C09":
 		info.Rule = "plans biased to identity mutation (name, email, login, avatar, metadata, invalid values) on any replica that knows the identity, with push/pull in between, so that all (common prefix, local suffix, remote suffix) classes arise; each identity merge is judged against the chains decoded by the reference decoder; non-trivial = an identity merge whose expected outcome is updated or refused-diverged happened; distinct = distinct event-log hash"
 		info.Kinds = []string{"id-changed", "history-not-append-only", "ff-not-applied", "ff-status-wrong", "nothing-case-changed-local", "diverged-accepted", "diverged-changed-local", "invalid-identity-accepted"}
+	case "C11":
+		info.Rule = "sessions of two or three cache-level replicas sharing a hub: new bug, every edit kind, commit, push, pull (updates of bugs that exist locally, diverged merges), removal, identity mutation, cache-size changes forcing eviction, clean close/reopen, reopen after the cache or index directory was lost; after EVERY step the acting replica's directory is copied, cache and index dropped in the copy, a second RepoCache built there and compared: ids, every excerpt field, identity excerpts, known labels, a generated query set, search hits for marker tokens, metadata look-ups, and (at the end) resolved snapshots; non-trivial = at least one comparison against a rebuilt cache; distinct = distinct event-log hash"
+		info.Kinds = []string{"ids-differ", "excerpt-differs", "snapshot-differs", "labels-differ", "query-differs", "search-differs", "metadata-lookup-differs", "identity-excerpt-differs"}
+	case "C12":
+		info.Rule = "same sessions with more bugs and few distinct search tokens, wall-clock skew between replicas and clock jumps; after every step a generated query set (status, author, actor, participant, label, title, no:label, metadata, single-token search; one sort each; rendered through the documented grammar with quoting) is evaluated by the live cache and by the reference evaluator over reference-interpreted snapshots: exact result set, no duplicates, sorted by the logical key; plus parser checks (arbitrary strings, round trip, malformed inputs); non-trivial = at least one query judged; distinct = distinct event-log hash"
+		info.Kinds = []string{"parse-panic", "roundtrip-differs", "malformed-accepted", "result-set-differs", "duplicate-in-result", "not-sorted", "order-follows-wall-clock"}
+		info.Assumptions = append(info.Assumptions, "search semantics are only judged for single tokens that the analyzer leaves intact (kwN); multi-term search is compared differentially in C11", "parser totality and round trip are pure functions of the string: that part is input generation riding on the simulator's client (DESIGN §5.12)")
 	case "C10":
 		info.Rule = "same plans; every bug read is compiled by git-bug and compared field by field with the reference interpreter applied to the reference-ordered stored operations; non-trivial = a bug with at least 4 operations was interpreted; distinct = distinct event-log hash"
 		info.Kinds = []string{"compile-not-repeatable", "title", "status", "labels", "comments", "actors-participants", "timeline", "metadata-overridden", "op-order", "incremental-differs-from-scratch"}
